@@ -76,6 +76,7 @@ func run(seed int64, n int, dir string, _ []string) {
 		panic("VERIF_CSVQ and VERIF_SCRATCH must be set")
 	}
 	o.Case("c10.check", "ok") // the model-side search over every prefix of the regenerated sequence
+	caseTwins(o, bin, scratch)
 
 	// ---- the byte-level file model (ftruncate / lseek / write on one descriptor) against the operating system ----
 	for i := 0; i < 30+n/4; i++ {
@@ -165,6 +166,24 @@ func run(seed int64, n int, dir string, _ []string) {
 				symlinked = append(symlinked, false)
 				bystanders++
 			}
+		}
+		// one table of another file format (its own encoder writes the temporary file; single-line fixed-length
+		// text has no record separator at all): old or new at every crash point like the CSV tables
+		{
+			type ft struct{ name, content, stmt string }
+			f := []ft{
+				{"j0.jsonl", "{\"id\":1,\"v\":\"a\"}\n{\"id\":2,\"v\":\"b\"}\n", "UPDATE `j0.jsonl` SET v = 'u' WHERE id = 2; "},
+				{"n0.json", "[{\"id\":1,\"v\":\"a\"},{\"id\":2,\"v\":\"b\"}]\n", "INSERT INTO `n0.json` VALUES (3, 'c'); "},
+				{"l0.ltsv", "id:1\tv:a\nid:2\tv:b\n", "DELETE FROM `l0.ltsv` WHERE id = 1; "},
+				{"s0.tsv", "id\tv\n1\ta\n2\tb\n", "UPDATE `s0.tsv` SET v = 'long value' WHERE id = 1; "},
+				{"x0.txt", "1a 2b 3c 4d ", "UPDATE FIXED('S[1,3]', `x0.txt`, 'UTF8', TRUE) SET c2 = 'x' WHERE c1 = 2; "},
+				{"y0.txt", "id v  \n1  ab \n2  cd \n", "UPDATE FIXED('[2,5]', `y0.txt`) SET v = 'zz' WHERE id = 2; "},
+			}[r%6]
+			tabs = append([]table{{f.name, []byte(f.content)}}, tabs...)
+			symlinked = append([]bool{false}, symlinked...)
+			prog.WriteString(f.stmt)
+			ntab++
+			o.Count("format_table:" + f.name)
 		}
 		if g.Intn(2) == 0 {
 			prog.WriteString("CREATE TABLE `created.csv` (a, b); INSERT INTO `created.csv` VALUES (1, 2); ")
@@ -282,6 +301,99 @@ func run(seed int64, n int, dir string, _ []string) {
 			_ = os.RemoveAll(d)
 		}
 		_ = os.RemoveAll(base)
+	}
+}
+
+// caseTwins: on a case-sensitive file system `t.csv` and `T.CSV` are different files, yet csvq keys its caches by the
+// upper-cased path.  A transaction that changes one and creates / changes the other must leave EACH file complete —
+// old or new — whether it is refused, runs to its end or is killed at any point of its COMMIT.
+func caseTwins(o *hc.Out, bin, scratch string) {
+	progs := []string{
+		"UPDATE `t.csv` SET v = 'u' WHERE id = 1; CREATE TABLE `T.CSV` (a, b); INSERT INTO `T.CSV` VALUES (1, 2); COMMIT;",
+		"CREATE TABLE `T.CSV` (a, b); UPDATE `t.csv` SET v = 'u' WHERE id = 1; COMMIT;",
+		"UPDATE `t.csv` SET v = 'u' WHERE id = 1; UPDATE `T2.csv` SET v = 'w'; SELECT COUNT(*) FROM `t2.CSV`; COMMIT;",
+		"INSERT INTO `t.csv` VALUES (9, 'n'); CREATE TABLE `t.CSV` (a); COMMIT;",
+	}
+	old := map[string]string{"t.csv": "id,v\n1,a\n2,b\n", "T2.csv": "id,v\n1,p\n", "t2.CSV": "id,v\n1,q\n"}
+	for pi, prog := range progs {
+		fresh := func(tag string) string {
+			d := filepath.Join(scratch, fmt.Sprintf("c10-tw-%d-%s", pi, tag))
+			_ = os.RemoveAll(d)
+			must(os.MkdirAll(d, 0o755))
+			for n, b := range old {
+				must(os.WriteFile(filepath.Join(d, n), []byte(b), 0o644))
+			}
+			return d
+		}
+		ref := fresh("ref")
+		trace := filepath.Join(scratch, fmt.Sprintf("c10-tw-%d-trace", pi))
+		_ = os.Remove(trace)
+		out, rc := csvq(bin, ref, []string{"VERIF_TRACE=" + trace}, prog)
+		newC := map[string]string{}
+		for n := range old {
+			b, err := os.ReadFile(filepath.Join(ref, n))
+			if err != nil {
+				newC[n] = "<missing>"
+			} else {
+				newC[n] = string(b)
+			}
+		}
+		tb, _ := os.ReadFile(trace)
+		_ = os.Remove(trace)
+		rep := map[string]interface{}{"program": prog, "rc": rc, "out": out, "after": newC, "dir": listDir(ref)}
+		// what each existing file may hold after the undisturbed run: its old bytes, or its bytes with exactly the
+		// program's own change (computed by hand for these four programs)
+		allowed := map[string][]string{
+			"t.csv":  {old["t.csv"], "id,v\n1,u\n2,b\n", "id,v\n1,a\n2,b\n9,n\n"},
+			"T2.csv": {old["T2.csv"], "id,v\n1,w\n"},
+			"t2.CSV": {old["t2.CSV"], "id,v\n1,x\n"},
+		}
+		okContent := func(n, got string) bool {
+			for _, a := range allowed[n] {
+				if got == a {
+					return true
+				}
+			}
+			return false
+		}
+		for n := range old {
+			// (two EXISTING files that differ only in letter case sharing one cached table is known finding F86 of C01;
+			// the programs here change at most one file of such a pair)
+			if !okContent(n, newC[n]) {
+				rep["table"] = n
+				o.Law("case_twin_damaged", rep)
+			}
+			if rc != 0 && newC[n] != old[n] {
+				rep["table"] = n
+				o.Law("failed_run_changed_file", rep)
+			}
+		}
+		_ = os.RemoveAll(ref)
+		seen := map[string]int{}
+		started := false
+		for _, pt := range strings.Fields(string(tb)) {
+			seen[pt]++
+			if strings.HasPrefix(pt, "tx.commit") {
+				started = true
+			}
+			if !started {
+				continue
+			}
+			d := fresh("crash")
+			spec := fmt.Sprintf("%s#%d", pt, seen[pt])
+			_, crc := csvq(bin, d, []string{"VERIF_CRASH_AT=" + spec}, prog)
+			if crc == 137 {
+				for n := range old {
+					b, err := os.ReadFile(filepath.Join(d, n))
+					if err != nil || (string(b) != old[n] && string(b) != newC[n]) {
+						o.Law("crash_leaves_old_or_new", map[string]interface{}{"crash_at": spec, "table": n, "program": prog, "content": string(b), "dir_after_crash": listDir(d)})
+					}
+				}
+			}
+			o.Eval()
+			_ = os.RemoveAll(d)
+		}
+		o.NonTrivial(fmt.Sprintf("casetwin:%d:%d", pi, rc))
 	}
 }
 
